@@ -251,13 +251,14 @@ pub fn run(run: &Run) {
 		}
 	}
 	run.enumerate("operator-table", op_table_size(), op_table_case);
-	let n = run.tier.pick(30_000, 400_000);
+	run.enumerate("object-reuse", reuse_size(), reuse_case);
+	let n = run.tier.pick(200_000, 2_000_000);
 	run.explore("programs", n, 20..=400, |src| {
 		// the whole tape is the case
 		let tape: Vec<u16> = std::iter::from_fn(|| if src.exhausted() { None } else { Some(src.raw()) }).collect();
 		case(run, &tape, 5, 60)
 	});
-	let n = run.tier.pick(6_000, 100_000);
+	let n = run.tier.pick(40_000, 400_000);
 	run.explore("programs-large", n, 100..=900, |src| {
 		let tape: Vec<u16> = std::iter::from_fn(|| if src.exhausted() { None } else { Some(src.raw()) }).collect();
 		case(run, &tape, 7, 150)
@@ -324,6 +325,45 @@ fn op_table_case(i: u64) -> CaseOut {
 	}
 }
 
+/// One object *value* (with object-level locals, methods and `super` references) used several times in one inheritance
+/// chain and in different chains: every occurrence has its own position (`super`), although `self` is the same.
+/// `@R` is replaced by the repeated `+ m` part, `@B` by a base value.
+const REUSE_TEMPLATES: &[&str] = &[
+	"local m = { local s = 1, n: super.n + s }; ({ n: @B }@R).n",
+	"local m = { local l = ['M'], q+: l }; ({ q: [@B] }@R).q",
+	"local m = { local a = 1, f(x):: x + a, v: super.v + self.f(@B) }; ({ v: 0 }@R).v",
+	"local m = { local t = 'x', o+: { local u = t, s+: u } }; ({ o: { s: '@B' } }@R).o.s",
+	"local m = { local k = 'n' in super, n: if k then super.n + 1 else @B }; ({}@R).n",
+	"local m = { local s = self.step, step:: 2, n: super.n + s }; [({ n: @B }@R).n, ({ n: 10 } + m).n, ({ n: 20, step:: 5 }@R).n]",
+	"local m = { local z = 0, n+: 1 + z }; local o = { n: @B }@R; [o.n, (o + m).n, o.n]",
+	"local m = { local w = 1, [if 'n' in super then 'n' else 'x']: w + (if 'n' in super then super.n else 0) }; ({ n: @B }@R)",
+];
+fn reuse_size() -> u64 {
+	(REUSE_TEMPLATES.len() * 4 * 3) as u64
+}
+fn reuse_case(i: u64) -> CaseOut {
+	let t = REUSE_TEMPLATES[(i as usize) / 12];
+	let reps = (i as usize / 3) % 4 + 1;
+	let base = ["0", "1", "7"][(i % 3) as usize];
+	let text = t.replace("@R", &" + m".repeat(reps)).replace("@B", base);
+	let Some(e) = ast::parse_to_ex(&text) else { return CaseOut::fail(text, "template does not parse".into()) };
+	let m = model::run_expr(&e, &Interp::new(400_000));
+	let mut problems = vec![];
+	for parser in [Parser::Ir, Parser::Peg] {
+		let got = jr::eval(&text, &Opts { parser, ..Opts::default() });
+		match compare(&m, &got) {
+			Cmp::Agree => {}
+			Cmp::Undecided(w) => return CaseOut::discard(text, &w),
+			Cmp::Disagree(w) => problems.push(format!("{parser:?}: {w}")),
+		}
+	}
+	if problems.is_empty() {
+		CaseOut::pass(text, reps >= 2).class("object-reuse")
+	} else {
+		CaseOut::fail(text, problems.join("\n")).class("object-reuse")
+	}
+}
+
 const REGRESSIONS: &[(&str, Option<&str>)] = &[("1 + 2", Some("3")), ("local f(x, y=x) = x + y; f(2)", Some("4")), ("{a: 1} + {a+: 2}", Some("{\"a\":3}")), ("error 'x'", None)];
 
 pub fn replay(run: &Run, stage: &str, tape: Option<&[u16]>, _v: &Value) -> Option<CaseOut> {
@@ -331,6 +371,7 @@ pub fn replay(run: &Run, stage: &str, tape: Option<&[u16]>, _v: &Value) -> Optio
 		("programs", Some(t)) => Some(case(run, t, 5, 60)),
 		("programs-large", Some(t)) => Some(case(run, t, 7, 150)),
 		("operator-table", _) => _v["extra"]["index"].as_u64().map(op_table_case),
+		("object-reuse", _) => _v["extra"]["index"].as_u64().map(reuse_case),
 		_ => None,
 	}
 }
